@@ -4,7 +4,7 @@
    Memory store), the proofs are in Dataset/Proofs.v.
    [holds d g t]  : the quad (t, g) is in the store behind front end d;
    [listed d g]   : g is among the names of Dataset.graphs(). *)
-From RV Require Import Dataset.Model Dataset.Proofs.
+From RV Require Import Dataset.Model Dataset.Proofs Dataset.OverMemory Dataset.OverMemoryProofs.
 Local Open Scope N_scope.
 
 (* ---- isolation: true of EVERY state of the model, no hypothesis ---- *)
@@ -250,6 +250,86 @@ Proof.
   - intros. now apply sp_default_always_known.
 Qed.
 Print Assumptions C02_spec_reading.
+
+(* ---- round 5: C01's Memory model REALISES the abstract store (review C02-3) ----
+   [AbsM m s]: the Memory state m (spo/pos/osp indexes, per-triple context
+   dictionaries with default-context compression, per-context triple sets,
+   registered graphs - coq/Store/Model.v, the model of memory.py that property
+   C01 ties to the code) satisfies Memory's invariant, holds graph by graph the
+   triples of the abstract store s and has registered the same graphs. *)
+
+(* every store-level write the dataset model performs - add to a graph, remove
+   with a graph or with None, add_graph, remove_graph - is simulated by the
+   Memory model's operation (Memory.add's index and context bookkeeping,
+   Memory.remove's context walk, ...) *)
+Theorem C02_memory_simulates_writes : forall m s o,
+  AbsM m s -> AbsM (mem_top m o) (st_top s o).
+Proof. exact AbsM_step. Qed.
+Print Assumptions C02_memory_simulates_writes.
+
+(* every store-level read of the Memory model is a duplicate-free enumeration of
+   what the abstract store's read returns: triples(pattern, graph-or-None),
+   __len__, contexts(), contexts(triple) *)
+Theorem C02_memory_realises_reads : forall m s, AbsM m s ->
+  (forall k p, NoDup (mem_triples_k m k p) /\ forall t, In t (mem_triples_k m k p) <-> In t (st_match s p k))
+  /\ (forall k, mem_len_k m k = st_len s k)
+  /\ (NoDup (mem_contexts m) /\ forall c, In c (mem_contexts m) <-> In c (known s))
+  /\ (forall t, NoDup (mem_contexts_of m t) /\ forall c, In c (mem_contexts_of m t) <-> In c (ctxs_of t (quads s))).
+Proof.
+  intros m s H. split; [|split; [|split]].
+  - intros k p. destruct (mem_triples_realises m s k p H) as (H1 & _ & H3). auto.
+  - intros k. now apply mem_len_realises.
+  - now apply mem_contexts_realises.
+  - intros t. now apply mem_contexts_of_realises.
+Qed.
+Print Assumptions C02_memory_realises_reads.
+
+(* a front-end operation of the dataset model IS its list of store-level writes
+   ([wops]; reads issue none), so running those writes on the Memory model is
+   running the front end over Memory *)
+Theorem C02_front_end_is_store_calls : forall d o,
+  fst (do_op d o) = mk_ds (fold_left st_top (wops (fresh d) o) (st d)) (is_ds d) (fresh_step (fresh d) o).
+Proof. exact do_op_as_ops. Qed.
+Print Assumptions C02_front_end_is_store_calls.
+
+Theorem C02_memory_realises_history : forall ops m d,
+  AbsM m (st d) -> AbsM (mem_after m (fresh d) ops) (st (ds_after d ops)).
+Proof. exact mem_after_realises. Qed.
+Print Assumptions C02_memory_realises_history.
+
+(* COROLLARY: ConjunctiveGraph/Dataset over the Memory model of memory.py, started
+   empty, after EVERY history of front-end operations: Memory's invariant holds;
+   graph by graph it holds exactly the triples the C02 mapping prescribes; its
+   registered graphs are the known names (the default graph is listed by the
+   front end without being registered); triples(pattern, graph), triples(pattern,
+   None), contexts(triple), __len__ enumerate the mapping's graph, merged view,
+   graphs of the triple, sizes.  The isolation theorems above therefore hold of
+   the Memory model, whatever the order in which contexts were attached to a
+   triple and whatever the default-context compression did. *)
+Theorem C02_memory_history : forall ops,
+  let m := mem_after mem_empty 0 ops in
+  let sp := fold_left sp_step ops sp_init in
+  MemInv m
+  /\ (forall c t, mem_holds m c t = q_mem (t, c) (sq sp))
+  /\ (forall c, In c (sk sp) <-> c = 0 \/ In c (mem_contexts m))
+  /\ (forall c p, NoDup (mem_triples_k m (Some c) p) /\ forall t, In t (mem_triples_k m (Some c) p) <-> In t (sp_graph sp c p))
+  /\ (forall p, NoDup (mem_triples_k m None p) /\ forall t, In t (mem_triples_k m None p) <-> In t (sp_union sp p))
+  /\ (forall t, NoDup (mem_contexts_of m t) /\ forall c, In c (mem_contexts_of m t) <-> In (t, c) (sq sp))
+  /\ (forall c, mem_len_k m (Some c) = N.of_nat (length (sp_graph sp c pall)))
+  /\ mem_len_k m None = N.of_nat (length (all_triples (sq sp))).
+Proof. exact memory_history. Qed.
+Print Assumptions C02_memory_history.
+
+(* non-vacuity of the Memory composition: a triple shared by an IRI- and a
+   blank-node-named graph, attached in one order and removed from the first *)
+Example C02_memory_nonvacuous :
+  let ops := [OAdd (1, 3, 5) (CQuad (Some (GId 1))); OAdd (1, 3, 5) (CQuad (Some (GId 3)));
+              OAdd (2, 3, 1) (CQuad None); ORemove (Some 1, None, None) (CQuad (Some (GId 1)));
+              OGraph (Some (GId 2)); ORemoveGraph (Some (GView 0))] in
+  let m := mem_after mem_empty 0 ops in
+  mem_holds m 3 (1, 3, 5) = true /\ mem_holds m 1 (1, 3, 5) = false /\ mem_holds m 0 (2, 3, 1) = false
+  /\ mem_triples_k m None pall = [(1, 3, 5)] /\ mem_contexts_of m (1, 3, 5) = [3].
+Proof. cbv zeta. repeat split; vm_compute; reflexivity. Qed.
 
 (* non-vacuity: a history with an IRI- and a blank-node-named graph of the
    same string, a shared triple, a foreign graph, removal from one graph,
